@@ -343,4 +343,66 @@ theorem repeated_bind_counter :
       (Tbl.get (run facts (init conf1) repeatedBind).alloc 168427522).map (·.uid) = some 1) := by
   refine ⟨⟨by decide, ⟨by decide, by decide, by decide⟩, by decide⟩, ⟨by decide, by decide, by decide⟩, by decide⟩
 
+/-! ### a half cleared multi-address key converges -/
+
+/-- `keyOwnedByRunningPod` skips the records of the key that carry no uid (regenerated from the helper's loop): such a
+    record is reserved for the key but bound to no pod.  For safety nothing changes - the whole-key check is only ever
+    needed for a record with ANOTHER NON-EMPTY uid, a live bound pod's records carry its non-empty uid
+    (`keyOwnedLoop_live`) - but without the skip a record without uid is judged by the pod's name alone. -/
+theorem fact_key_owned_skips_empty_uid :
+    Generated.Plugin.keyOwnedSkipsEmptyUid = true ∧ facts.keyOwnedSkipsEmptyUid = true := by decide
+
+def poolHC : Pool := { nodeSubnets := [⟨168362240, 24⟩], ranges := [(168427522, 168427523)], gateway := 168427521, bits := 24, vlan := 0 }
+def confHC : Conf := { pools := [poolHC], nodes := [("n1", 168362245)], provider := false }
+
+/-- a pod with two addresses is deleted; unbind clears the uid of one record and fails on the other (a store fault),
+    the event is lost; the pod is re-created; ONE resync pass; Filter and Bind of the new pod
+    (corpus/C04/half-cleared-key.ops) -/
+def halfCleared : List Move := [
+  .scale .sts "ns1" "a" 1,
+  .createPod "ns1" "a-0" .sts "a" "" 2 [[(168427522, 168427522)], [(168427523, 168427523)]] true,
+  .listerSync true true,
+  .filter "ns1" "a-0" ["n1"] {} 0,
+  .bind "ns1" "a-0" 1 "n1" {} 0 0,
+  .deletePod "ns1" "a-0",
+  .listerSync true true,
+  .deliver 0 3 0,
+  .dropEvent 0,
+  .createPod "ns1" "a-0" .sts "a" "" 2 [[(168427522, 168427522)], [(168427523, 168427523)]] true,
+  .listerSync true true,
+  .resync [168427522] 0 0,
+  .filter "ns1" "a-0" ["n1"] {} 0,
+  .bind "ns1" "a-0" 2 "n1" {} 0 0]
+
+/-- a `keyOwnedByRunningPod` that judges a record without uid by the pod's name -/
+def factsEmptyUidOwns : Facts := { Facts.good with keyOwnedSkipsEmptyUid := false }
+
+set_option maxRecDepth 100000 in
+/-- After the half cleared state (one record of the key without uid, the other still carrying the gone pod's uid) ONE
+    fault-free resync pass clears the stale record although a re-created pod of the same name exists, and the new pod is
+    bound with both addresses. -/
+theorem half_cleared_key_converges :
+    allAssumed facts (init confHC) halfCleared = true ∧
+    -- the half cleared state, before the resync pass
+    ((Tbl.get (run facts (init confHC) (halfCleared.take 11)).alloc 168427522).map (·.uid) = some 1 ∧
+     (Tbl.get (run facts (init confHC) (halfCleared.take 11)).alloc 168427523).map (·.uid) = some 0) ∧
+    -- after it the stale record is cleared ...
+    (Tbl.get (run facts (init confHC) (halfCleared.take 12)).alloc 168427522).map (·.uid) = some 0 ∧
+    -- ... and the re-created pod is bound with both addresses
+    ((run facts (init confHC) halfCleared).pods.get ("ns1", "a-0")).map (·.ips) = some [168427522, 168427523] := by
+  refine ⟨by decide, ⟨by decide, by decide⟩, by decide, by decide⟩
+
+set_option maxRecDepth 100000 in
+/-- Without the skip (the code of 5949e71) the record without uid makes the re-created pod the "running owner" of its
+    own key: resync skips the stale record - in this pass and in every later one, the state does not change - and the
+    new pod's Bind keeps answering "waiting for delete event". -/
+theorem half_cleared_key_converges_counter :
+    (Tbl.get (run factsEmptyUidOwns (init confHC) (halfCleared.take 12)).alloc 168427522).map (·.uid) = some 1 ∧
+    (run factsEmptyUidOwns (init confHC) (halfCleared.take 12 ++ [.resync [168427522] 0 0])).alloc =
+      (run factsEmptyUidOwns (init confHC) (halfCleared.take 12)).alloc ∧
+    ((run factsEmptyUidOwns (init confHC) halfCleared).pods.get ("ns1", "a-0")).map (·.ips) = some [] ∧
+    (step factsEmptyUidOwns (run factsEmptyUidOwns (init confHC) (halfCleared.take 13)) (.bind "ns1" "a-0" 2 "n1" {} 0 0)).2.res
+      = .err "waiting-for-delete" := by
+  refine ⟨by decide, by decide, by decide, by decide⟩
+
 end Galaxy.Props.C04
